@@ -41,3 +41,91 @@ Print Assumptions system_IsValidSystemRule_ok.
 Print Assumptions circuitbreaker_IsValidRule_ok.
 Print Assumptions hotspot_IsValidRule_ok.
 Print Assumptions flow_IsValidRule_ok.
+
+(* ---- Round 3: the validity-filter loops of the load paths, ONE iteration each ----
+   Gen.<module>_filter_all_step  = the inner loop of onRuleUpdate (whole-set path, nested in the range over
+                                   the grouped map), Gen.<module>_filter_res_step = the loop of
+                                   onResourceRuleUpdate: `if err := IsValidRule(rule); err != nil { continue };
+                                   validResRules = append(validResRules, rule)`.
+   err_nil is instantiated with the REGENERATED IsValidRule applied to the rule (a nil element: rule_nil).
+   The rule is appended (action 1) iff the model's [valid] holds, a nil element never is: this is one step of
+   the model's [vfilter] = filter valid (nonnil l), and vfilter is that step iterated (vfilter_cons). *)
+Definition appended {R C} (g : leaf_flow R C * list leaf_act) : bool :=
+  match snd g with [] => false | _ => true end.
+Definition goes_on {R} (g : leaf_flow R unit * list leaf_act) : bool :=
+  match fst g with LContinue _ => true | _ => false end.
+
+Definition filter_step {rule} (valid : rule -> bool) (x : option rule) : bool :=
+  match x with Some r => valid r | None => false end.
+
+Lemma vfilter_cons {rule} (valid : rule -> bool) (x : option rule) l :
+  vfilter rule valid (x :: l)
+  = match x with
+    | Some r => if filter_step valid x then r :: vfilter rule valid l else vfilter rule valid l
+    | None => vfilter rule valid l
+    end.
+Proof. unfold vfilter, filter_step. destruct x as [r|]; cbn [nonnil filter]; reflexivity. Qed.
+
+Ltac filter_ok lem :=
+  intros; rewrite lem; unfold appended, goes_on;
+  match goal with |- context [if negb ?c then _ else _] => destruct c end; split; reflexivity.
+
+Lemma flow_filter_steps_ok tm r :
+  let e := flow_IsValidRule (f_ref r =? 0) (f_res r =? 0) (f_cb r) (f_highmem r) (f_lowmem r) (f_memhigh r) (f_memlow r)
+             (f_rel r) (f_interval r) (f_thr r) (f_tcs r) (f_wcold r) (f_wperiod r) false tm =? 0 in
+  (appended (flow_filter_all_step e) = filter_step (flow_valid tm) (Some r) /\ goes_on (flow_filter_all_step e) = true)
+  /\ (appended (flow_filter_res_step e) = filter_step (flow_valid tm) (Some r) /\ goes_on (flow_filter_res_step e) = true).
+Proof.
+  cbv zeta. rewrite flow_IsValidRule_ok. unfold flow_filter_all_step, flow_filter_res_step, appended, goes_on, filter_step.
+  destruct (flow_valid tm r); cbn [negb snd fst]; repeat split; reflexivity.
+Qed.
+
+Lemma hotspot_filter_steps_ok r :
+  let e := hotspot_IsValidRule (negb (h_pkey r =? 0)) (h_res r =? 0) (h_burst r) (h_cb r) (h_dur r) (h_maxq r)
+             (h_metric r) (h_pidx r) (h_thr r) false =? 0 in
+  (appended (hotspot_filter_all_step e) = filter_step hot_valid (Some r) /\ goes_on (hotspot_filter_all_step e) = true)
+  /\ (appended (hotspot_filter_res_step e) = filter_step hot_valid (Some r) /\ goes_on (hotspot_filter_res_step e) = true).
+Proof.
+  cbv zeta. rewrite hotspot_IsValidRule_ok. unfold hotspot_filter_all_step, hotspot_filter_res_step, appended, goes_on, filter_step.
+  destruct (hot_valid r); cbn [negb snd fst]; repeat split; reflexivity.
+Qed.
+
+Lemma circuitbreaker_filter_steps_ok r :
+  let e := circuitbreaker_IsValidRule (b_retry r) (b_interval r) (b_buckets r) (b_strategy r) (b_thr r) false (b_res r =? 0) =? 0 in
+  (appended (circuitbreaker_filter_all_step e) = filter_step brk_valid (Some r) /\ goes_on (circuitbreaker_filter_all_step e) = true)
+  /\ (appended (circuitbreaker_filter_res_step e) = filter_step brk_valid (Some r) /\ goes_on (circuitbreaker_filter_res_step e) = true).
+Proof.
+  cbv zeta. rewrite circuitbreaker_IsValidRule_ok. unfold circuitbreaker_filter_all_step, circuitbreaker_filter_res_step, appended, goes_on, filter_step.
+  destruct (brk_valid r); cbn [negb snd fst]; repeat split; reflexivity.
+Qed.
+
+Lemma isolation_filter_steps_ok r :
+  let e := isolation_IsValidRule (i_metric r) (i_thr r) false (i_res r =? 0) =? 0 in
+  (appended (isolation_filter_all_step e) = filter_step iso_valid (Some r) /\ goes_on (isolation_filter_all_step e) = true)
+  /\ (appended (isolation_filter_res_step e) = filter_step iso_valid (Some r) /\ goes_on (isolation_filter_res_step e) = true).
+Proof.
+  cbv zeta. rewrite isolation_IsValidRule_ok. unfold isolation_filter_all_step, isolation_filter_res_step, appended, goes_on, filter_step.
+  destruct (iso_valid r); cbn [negb snd fst]; repeat split; reflexivity.
+Qed.
+
+(* a nil element: IsValidRule(nil) is an error whatever the (absent) fields, so nothing is appended *)
+Lemma nil_element_filtered :
+  (forall a b c d e f g h i j k l m tm, flow_IsValidRule a b c d e f g h i j k l m true tm =? 0 = false)
+  /\ (forall a b c d e f g h i, hotspot_IsValidRule a b c d e f g h i true =? 0 = false)
+  /\ (forall a b c d e g, circuitbreaker_IsValidRule a b c d e true g =? 0 = false)
+  /\ (forall a b d, isolation_IsValidRule a b true d =? 0 = false).
+Proof. repeat split; intros; reflexivity. Qed.
+
+Lemma nil_element_steps :
+  appended (flow_filter_all_step false) = false /\ appended (flow_filter_res_step false) = false
+  /\ appended (hotspot_filter_all_step false) = false /\ appended (hotspot_filter_res_step false) = false
+  /\ appended (circuitbreaker_filter_all_step false) = false /\ appended (circuitbreaker_filter_res_step false) = false
+  /\ appended (isolation_filter_all_step false) = false /\ appended (isolation_filter_res_step false) = false.
+Proof. repeat split; reflexivity. Qed.
+
+Print Assumptions flow_filter_steps_ok.
+Print Assumptions hotspot_filter_steps_ok.
+Print Assumptions circuitbreaker_filter_steps_ok.
+Print Assumptions isolation_filter_steps_ok.
+Print Assumptions nil_element_filtered.
+Print Assumptions nil_element_steps.
